@@ -84,6 +84,14 @@ def family(kind, cfg):
         G = dataclasses.make_dataclass("G", [("g", T), ("gs", typing.List[T], F(default_factory=list))],
                                        bases=(typing.Generic[T], DataClassDictMixin), namespace=ns)
         return G[int]
+    if kind == "ntfield":
+        NTD = typing.NamedTuple("NTD", [("p", int), ("q", typing.Optional[str]), ("d", datetime.date)])
+        NTD.__new__.__defaults__ = (None, datetime.date(2001, 2, 3))
+        NTD._field_defaults = {"q": None, "d": datetime.date(2001, 2, 3)}
+        import sys
+        sys.modules[NTD.__module__].__dict__.setdefault("NTD", NTD)
+        return dataclasses.make_dataclass("WithNT", [("nt", NTD), ("x", int, F(default=1)), ("lnt", typing.List[NTD], F(default_factory=list))],
+                                          bases=(DataClassDictMixin,), namespace=ns)
     if kind == "plain":
         return dataclasses.make_dataclass("Plain", [("a", int, F(default=1)), ("n", typing.Optional[str], F(default=None))],
                                           namespace=ns)
